@@ -252,6 +252,24 @@ impl Gate {
         (gate, agent)
     }
 
+    /// Declares that this clone is only used to send updates: nobody will
+    /// run [`process`](Self::process) on it.
+    ///
+    /// Its command queue is closed, so the parent gate no longer notifies it
+    /// of commands. A clone whose commands are never read has to do this:
+    /// the queue holds `COMMAND_QUEUE_LEN` commands and the parent waits for
+    /// room in the queue of every clone it notifies, so once the queue of
+    /// such a clone is full the parent gate, and the unit that runs it,
+    /// would wait for ever.
+    pub fn into_send_only(self) -> Self {
+        if self.is_clone() {
+            if let Ok(mut commands) = self.commands.try_write() {
+                commands.close();
+            }
+        }
+        self
+    }
+
     /// Take the key internals of a Gate to use elsewhere.
     ///
     /// Can't be done manually via destructuring due to the existence of the
